@@ -11,9 +11,10 @@ Variable score_fn : V -> scored Sc.
 Variable populate : A -> list trial -> bool -> tid -> A * status * V.
 Variable hook_end hook_end_abort : A -> tid -> V -> A.
 Variable hook_reload : A -> A.
+Variable reissue : V -> V.
 Notation ost := (@ostate A V Sc).
-Notation stepf := (step vdef score_fn populate hook_end hook_end_abort hook_reload).
-Notation createf := (do_create vdef populate).
+Notation stepf := (step vdef score_fn populate hook_end hook_end_abort hook_reload reissue).
+Notation createf := (do_create vdef populate reissue).
 Notation endf := (do_end score_fn hook_end hook_end_abort).
 
 (* ---------------- C02: max_trials is a hard budget ---------------- *)
@@ -44,10 +45,10 @@ Qed.
 
 Theorem C02_budget c n a ops : max_trials c = Some n ->
   Forall (fun rs => length (trials (snd rs)) <= n)
-         (run vdef score_fn populate hook_end hook_end_abort hook_reload c (init a) ops).
+         (run vdef score_fn populate hook_end hook_end_abort hook_reload reissue c (init a) ops).
 Proof.
   intros Hn. assert (H : forall s, length (trials s) <= n ->
-     Forall (fun rs => length (trials (snd rs)) <= n) (run vdef score_fn populate hook_end hook_end_abort hook_reload c s ops)).
+     Forall (fun rs => length (trials (snd rs)) <= n) (run vdef score_fn populate hook_end hook_end_abort hook_reload reissue c s ops)).
   { induction ops as [|o r IH]; intros s Hs; simpl; [constructor|].
     destruct (stepf c s o) as [s' rs] eqn:Es. pose proof (C02_budget_step c n s o Hn Hs) as H'. rewrite Es in H'. simpl in H'.
     constructor; [exact H'|now apply IH]. }
@@ -68,12 +69,33 @@ Qed.
 Theorem C03_retry_first c s tu id rq' : alookup tu (ongoing s) = None -> rev (retryq s) = id :: rq' ->
   exists s' v, createf c s tu = (s', RTrial id RUNNING v) /\
      length (trials s') = length (trials s) /\ retryq s' = rev rq' /\ In (tu, id) (ongoing s') /\
-     (forall t, nth_error (trials s) id = Some t -> v = t_data t).
+     (forall t, nth_error (trials s) id = Some t -> v = reissue (t_data t)).
 Proof.
   intros Hlk Hrq. unfold do_create. rewrite Hlk, Hrq. eexists. eexists. split; [reflexivity|]. simpl.
   rewrite length_upd. repeat split; auto.
   - apply in_or_app. right. now left.
   - intros t Ht. unfold trial_view. rewrite nth_upd_same, Ht. reflexivity.
+Qed.
+
+(* a trial that has ended (COMPLETED or FAILED) is never handed out again: whatever Create answers with
+   status RUNNING is not in end_order *)
+Theorem C01_never_reissue_final c s tu s' id v : Inv s ->
+  createf c s tu = (s', RTrial id RUNNING v) -> ~ In id (end_order s).
+Proof.
+  intros HI. unfold do_create.
+  destruct (alookup tu (ongoing s)) as [id0|] eqn:Elk.
+  - destruct (trial_view vdef (trials s) id0) as [st0 v0] eqn:Ev. intros H; injection H as _ Hid _ _; subst id0.
+    apply alookup_some in Elk. assert (Hon : In id (onids s)) by (unfold onids; apply in_map_iff; exists (tu, id); auto).
+    apply (on_facts s id HI Hon).
+  - destruct (rev (retryq s)) as [|idq rq'] eqn:Erq.
+    + destruct (match max_trials c with
+                | Some n => if Nat.leb n (length (trials s)) then (algo s, STOPPED, vdef)
+                            else populate (algo s) (trials s) (negb (Nat.eqb (length (ongoing s)) 0)) (length (trials s))
+                | None => populate (algo s) (trials s) (negb (Nat.eqb (length (ongoing s)) 0)) (length (trials s)) end) as [[a' st] v0].
+      destruct st; intros H; try discriminate H; injection H as _ Hid _; subst id.
+      intros Hin. destruct (I_eo_fin _ HI _ Hin) as (st & Hst & _). apply stat_lt in Hst. lia.
+    + intros H; injection H as _ Hid _; subst idq. apply rev_cons_inv in Erq.
+      destruct (I_part _ HI) as (_ & _ & _ & _ & _ & H3). apply H3. rewrite Erq. apply in_or_app. right. now left.
 Qed.
 
 (* a tuner that still holds a trial gets the same trial back and nothing changes *)
